@@ -7,6 +7,7 @@
    theorem below is universally quantified. *)
 From Coq Require Import List Arith Bool.
 From Labella Require Import Render.Process Render.ProcessProofs.
+From Labella Require Render.ProcessData.
 Import ListNotations.
 
 (* Refinement: for EVERY history over any number of timelines and caller-owned
@@ -46,6 +47,48 @@ Theorem C10_idempotent :
   snd (step D Opt Sc Doc init_axis render s_fresh st (Export id)).
 Proof. exact export_idempotent. Qed.
 Print Assumptions C10_idempotent.
+
+(* The caller's DATA objects are shared cells too: parse_items writes the
+   normalised time back into the caller's dicts.  Render/ProcessData.v models
+   those cells; because the write-back is idempotent (the only hypothesis,
+   norm_idem), timelines built from the SAME data list object still export as
+   the stateless specification says, and a default-scale timeline's export
+   mentions only its own normalised data and options. *)
+Theorem C10_isolation_shared_data :
+  forall (D Opt Sc Doc : Type) (norm : D -> D),
+  (forall d, norm (norm d) = norm d) ->
+  forall (init_axis : D -> Opt -> Sc -> Sc) (render : D -> Opt -> Sc -> Doc) (s_fresh : Sc) (d_none : D)
+         (data : list D) (caller_cells : list Sc) (h : list (ProcessData.op Opt)),
+  ProcessData.wf_hist Opt (length data) (length caller_cells) h = true ->
+  ProcessData.run D Opt Sc Doc norm init_axis render s_fresh d_none
+                  (ProcessData.init_state D Opt Sc data caller_cells) h =
+  ProcessData.spec_run D Opt Sc Doc norm init_axis render s_fresh d_none data caller_cells [] h.
+Proof. exact ProcessData.isolation_data. Qed.
+Print Assumptions C10_isolation_shared_data.
+
+Theorem C10_default_scale_own_data :
+  forall (D Opt Sc Doc : Type) (norm : D -> D)
+         (init_axis : D -> Opt -> Sc -> Sc) (render : D -> Opt -> Sc -> Doc) (s_fresh : Sc) (d_none : D)
+         (data : list D) (caller_cells : list Sc) (prefix : list (ProcessData.op Opt)) id dc opts,
+  ProcessData.latest Opt id prefix = Some (dc, opts, ProcessData.Default) ->
+  ProcessData.spec_export D Opt Sc Doc norm init_axis render s_fresh d_none data caller_cells prefix id =
+  Some (render (norm (nth dc data d_none)) opts (init_axis (norm (nth dc data d_none)) opts s_fresh)).
+Proof. exact ProcessData.spec_default_own. Qed.
+Print Assumptions C10_default_scale_own_data.
+
+(* non-vacuity: two timelines from the same data list object (cell 0), norm =
+   "mark as normalised"; both see the normalised data, neither sees the other *)
+Example C10_ex_shared_data :
+  let norm := fun d : nat => if Nat.ltb d 100 then d + 100 else d in
+  ProcessData.wf_hist nat 1 0 [ProcessData.Construct nat 0 0 20 ProcessData.Default;
+                               ProcessData.Construct nat 1 0 21 ProcessData.Default;
+                               ProcessData.Export nat 0; ProcessData.Export nat 1] = true /\
+  ProcessData.run nat nat (list (nat * nat)) _ norm (fun d o s => s ++ [(d, o)]) (fun d o s => (d, o, s)) [] 0
+    (ProcessData.init_state nat nat _ [7] [])
+    [ProcessData.Construct nat 0 0 20 ProcessData.Default; ProcessData.Construct nat 1 0 21 ProcessData.Default;
+     ProcessData.Export nat 0; ProcessData.Export nat 1] =
+  [Some (107, 20, [(107, 20)]); Some (107, 21, [(107, 21)])].
+Proof. vm_compute. split; reflexivity. Qed.
 
 (* Non-vacuity, and the recorded defect: with the OLD plumbing (one
    module-level default scale shared by every instance, Process.step_old) the
